@@ -590,11 +590,32 @@ theorem KI.erase {n : Node} (h : KI n n.kids) (hs : n.kind = .sparse) (hnd : Fie
     cases hko
 
 
+theorem argExact_congr {n r : Node} (h : r.hdr = n.hdr) (k : Str) (a : Arg) : ArgExact r k a ↔ ArgExact n k a := by
+  have hs : r.sch = n.sch := (hdr_parts h).2.2.1
+  cases a <;> simp [ArgExact, hs]
+
+theorem mapUpdateArgs_ok (kvs : List (Str × Arg)) :
+    ∀ (n : Node) (next : Nat), KI n n.kids → (∀ p ∈ kvs, ArgExact n p.1 p.2) →
+      (mapUpdateArgs n kvs next).node.hdr = n.hdr ∧ KI n (mapUpdateArgs n kvs next).node.kids := by
+  induction kvs with
+  | nil => intro n next h _; exact ⟨rfl, h⟩
+  | cons kv rest ih =>
+    intro n next h hex
+    obtain ⟨k, a⟩ := kv
+    have hs := mapSetItem_ok n h k a (hex (k, a) (by simp)) next
+    rw [mapUpdateArgs]
+    split
+    · exact hs
+    · have := ih _ (mapSetItem n k a next).next ((KI_congr hs.1 _).mpr hs.2)
+        (fun p hp => (argExact_congr hs.1 p.1 p.2).mpr (hex p (by simp [hp])))
+      exact ⟨this.1.trans hs.1, (KI_congr hs.1 _).mp this.2⟩
+
 /-! ### every call -/
 
 /-- the Element argument of an item assignment is exact (see `ArgExact`) -/
 def OpExact (n : Node) : MapOp → Prop
   | .setitem k a => ArgExact n k a
+  | .updateArgs kvs => ∀ p ∈ kvs, ArgExact n p.1 p.2
   | _ => True
 
 theorem mapReset_eq (n : Node) (next : Nat) : (mapReset n next).1 = n.withKids (resetKids n next).1 := by
@@ -683,6 +704,7 @@ theorem mapStep_ok (n : Node) (hk : MapKind n) (hnd : FieldsNodup n) (h : KI n n
         · exact h1
         · have h2 := mapUpdatePairs_ok kw _ (mapUpdatePairs n kvs next).next ((KI_congr h1.1 _).mpr h1.2)
           exact ⟨h2.1.trans h1.1, (KI_congr h1.1 _).mp h2.2⟩
+  | updateArgs kvs => exact mapUpdateArgs_ok kvs n next h hop
   | ior raw =>
     dsimp only
     split
@@ -750,13 +772,22 @@ theorem sch_of_step (n : Node) (hk : MapKind n) (hnd : FieldsNodup n) (h : MapIn
   (hdr_parts (mapStep_ok n hk hnd ((mapInv_iff n).mp h) op hop next).1).2.2.1
 
 /-- the hypothesis on Element arguments, stated against the (constant) class of the mapping -/
+def ArgExactS (s : Schema) (k : Str) : Arg → Prop
+  | .elem e => ∀ f, fieldFor s.subs k = some f → isInstance e f = true → e.sch = f
+  | .plain _ => True
+
 def OpExactS (s : Schema) : MapOp → Prop
-  | .setitem k (.elem e) => ∀ f, fieldFor s.subs k = some f → isInstance e f = true → e.sch = f
+  | .setitem k a => ArgExactS s k a
+  | .updateArgs kvs => ∀ p ∈ kvs, ArgExactS s p.1 p.2
   | _ => True
+
+theorem argExact_of_S {n : Node} {k : Str} {a : Arg} (h : ArgExactS n.sch k a) : ArgExact n k a := by
+  cases a <;> first | exact h | trivial
 
 theorem opExact_of_S {n : Node} {op : MapOp} (h : OpExactS n.sch op) : OpExact n op := by
   cases op with
-  | setitem k a => cases a <;> first | exact h | trivial
+  | setitem k a => exact argExact_of_S h
+  | updateArgs kvs => exact fun p hp => argExact_of_S (h p hp)
   | _ => trivial
 
 /-- **mapinv_reachable.**  The invariant holds in every state a history of calls reaches. -/
@@ -883,5 +914,17 @@ example : MapInv (run ⟨exDict, 10⟩ exMapOps).node :=
 
 example : keys (run ⟨exDict, 10⟩ exMapOps).node = [['x'], ['y']] := by decide
 example : (mapStep exDict (.setitem ['q'] (.plain (.int 1))) 10).out = .exc .typeError := rfl
+
+
+/-- an Element of the field class that belongs to another container (stored parent 99) assigned
+    onto a key that is already present, by item assignment and through `update`: it is adopted
+    and its stored parent becomes the mapping (id 1) -/
+def exOwned : Node := .mk { id := 50, parent := some 99, val := .str ['v'], u := ['v'] } exA []
+
+example : ((mapStep (mapStep exSparse (.setitem ['a'] (.plain (.int 1))) 10).node
+    (.setitem ['a'] (.elem exOwned)) 20).node.kids.map (fun c => (c.id, c.parent))) = [(50, some 1)] := by decide
+
+example : ((mapStep (mapStep exSparse (.setitem ['a'] (.plain (.int 1))) 10).node
+    (.updateArgs [(['a'], .elem exOwned)]) 20).node.kids.map (fun c => (c.id, c.parent))) = [(50, some 1)] := by decide
 
 end Flatland.C10.Proofs
